@@ -361,6 +361,10 @@ pub fn generate(prop: &str, rng: &mut Rng, skip_fast: bool, run_index: u64) -> (
             let mut p = Profile::draw(rng, &[K_SLICE]);
             p.query_pct = 0;
             p.cap = rng.pick(&[0u8, 1, 2, 3, 3, 5]);
+            if prop == "C05" {
+                p.submin = true;
+                p.submin_any_kind = true;
+            }
             (Case::Mem { spec, ops: Vec::new() }, p)
         }
     }
